@@ -429,6 +429,9 @@ def template_read_check_rule(repo: Repo, rep: Report, rid: str) -> None:
 
 
 def run(repo: Repo, rep: Report, tier: str) -> None:
+    from .compiled import compiled_fold_rule, shape_rule
+
+    compiled_fold_rule(repo, rep, "C08.R10", tier)
     R1, R2, R3 = "C08.R1", "C08.R2", "C08.R3"
     rep.rule(R1, "every sized stream.read(n) is length-checked (EOFError on short read) on every path before its result is used")
     rep.rule(R2, "no try/except (or suppress) around code that reads from the stream swallows the failure")
@@ -510,11 +513,11 @@ def run(repo: Repo, rep: Report, tier: str) -> None:
 
     codec_fold_rule(repo, rep, "C08.R5", slots=("_read", "_read_array", "_read_0"))
     call_shortcut_rule(repo, rep, "C08.R6")
-    generated_globals_rule(repo, rep, "C08.R7")
+    shape_rule(repo, rep, tier, generated_globals_rule, "C08.R7")
     from .c07 import array_count_fold_rule
 
     array_count_fold_rule(repo, rep, "C08.R8")
-    template_read_check_rule(repo, rep, "C08.R9")
+    shape_rule(repo, rep, tier, template_read_check_rule, "C08.R9")
 
 
 
